@@ -780,7 +780,12 @@ def add_sum_pow2_m1(
                 it += 1
 
     if len(input_labels) == 2:
-        out.append(add_sum2(circuit, input_labels[0:2]))
+        if isinstance(basis, str):
+            basis = GenerationBasis(basis.upper())
+        if basis == GenerationBasis.AIG:
+            out.append(add_sum2_aig(circuit, input_labels[0:2]))
+        else:
+            out.append(add_sum2(circuit, input_labels[0:2]))
         input_labels = input_labels[2:]
         input_labels.append(out[it][0])
 
